@@ -325,6 +325,111 @@ Proof.
   destruct (get_session (replay l1 st0) (e_id e)) as [s| |]; [destruct (String.eqb h (s_auth s)); discriminate|congruence|discriminate].
 Qed.
 
+(* session ids present in the state are bounded as well: the id of an entry still ahead is in no map *)
+Definition keys_below (b : N) (st : state) : Prop := Forall (fun ks : N * sess => (fst ks <= b)%N) (st_sessions st).
+
+Lemma keys_map f st b : keys_below b st -> keys_below b (map_sessions f st).
+Proof.
+  unfold keys_below, map_sessions. cbn [st_sessions]. intros H. rewrite Forall_forall in *.
+  intros ks Hin. apply in_map_iff in Hin. destruct Hin as (x & <- & Hx). cbn [fst]. now apply H.
+Qed.
+Lemma keys_weaken b b' st : (b <= b')%N -> keys_below b st -> keys_below b' st.
+Proof. unfold keys_below. intros Hle H. rewrite Forall_forall in *. intros ks Hin. specialize (H ks Hin). cbn in *. lia. Qed.
+
+Lemma keys_set_lastproc b st n : keys_below b st -> keys_below b (set_lastproc st n).
+Proof. intros H. exact H. Qed.
+Lemma keys_kill b d st : keys_below b st -> keys_below b (kill d st).
+Proof. unfold kill. apply keys_map. Qed.
+Lemma keys_set_last b st id c : keys_below b st -> keys_below b (set_last st id c).
+Proof. unfold set_last. apply keys_map. Qed.
+Lemma keys_add b st id a : keys_below b st -> (id <= b)%N -> keys_below b (add_session st id a).
+Proof. intros H Hle. unfold keys_below, add_session. cbn [st_sessions]. constructor; [cbn; lia|exact H]. Qed.
+
+Lemma keys_apply o st e b :
+  keys_below b st -> (b < e_id e)%N -> keys_below (e_id e) (apply o st e).
+Proof.
+  intros Hk Hlt. assert (Hw : keys_below (e_id e) st) by (apply (keys_weaken b); [lia|assumption]).
+  unfold apply. destruct (e_type e); try destruct (o_created o); try destruct (is_dup st e);
+    try destruct (is_live st (e_session e));
+    repeat first [assumption | apply keys_set_lastproc | apply keys_kill | apply keys_set_last | (apply keys_add; [|lia])].
+Qed.
+
+Lemma keys_replay l : forall st b,
+  keys_below b st -> ids_increase b l ->
+  exists b', keys_below b' (replay l st) /\ (b <= b')%N /\
+             (forall e o r, ids_increase b (l ++ (e, o) :: r) -> (b' < e_id e)%N).
+Proof.
+  induction l as [|[e o] r IH]; intros st b Hk Hinc; cbn [replay].
+  - exists b. repeat split; [assumption|lia|]. intros e o r H. cbn in H. tauto.
+  - destruct Hinc as (Hlt & Hs & Hr).
+    destruct (IH (apply o st e) (e_id e) (keys_apply o st e b Hk Hlt) Hr) as (b' & H1 & H2 & H3).
+    exists b'. repeat split; [assumption|lia|]. intros e' o' r' H. cbn in H. destruct H as (_ & _ & H). now apply (H3 e' o' r').
+Qed.
+
+Lemma lookup_above b st id : keys_below b st -> (b < id)%N -> lookup id (st_sessions st) = None.
+Proof.
+  unfold keys_below. intros H Hlt. induction (st_sessions st) as [|[k s] r IH]; [reflexivity|].
+  inversion H as [|? ? Hk Hr]; subst. cbn in Hk. cbn [lookup]. destruct (N.eqb_spec k id); [lia|now apply IH].
+Qed.
+
+(* exactly "not yet seen": the id of an entry still ahead of the applied prefix is neither found nor gone *)
+Theorem lagging_view_not_yet st0 b l1 e o l2 :
+  (st_lastproc st0 <= b)%N -> keys_below b st0 -> ids_increase b (l1 ++ (e, o) :: l2) ->
+  get_session (replay l1 st0) (e_id e) = GsNotYet.
+Proof.
+  intros Hb Hk Hinc.
+  assert (Hpre : ids_increase b l1).
+  { clear - Hinc. revert b Hinc. induction l1 as [|[x ox] r IH]; intros b H; cbn in *; [exact I|].
+    destruct H as (H1 & H2 & H3). auto. }
+  destruct (lastproc_replay l1 st0 b Hb Hpre) as (b1 & H1 & _ & H3).
+  destruct (keys_replay l1 st0 b Hk Hpre) as (b2 & K1 & _ & K3).
+  specialize (H3 e o l2 Hinc). specialize (K3 e o l2 Hinc).
+  unfold get_session. rewrite (lookup_above b2 _ _ K1 K3).
+  assert (N.ltb (e_id e) (st_lastproc (replay l1 st0)) = false) as -> by (apply N.ltb_ge; lia). reflexivity.
+Qed.
+
+(* ... and therefore every session route answers it with 500 or proxies it, never with 404 — the
+   status on which clients give a session up (D22).  [lm]: the route goes through sessionOrProxy. *)
+Theorem lagging_gate_status st0 b l1 e o l2 lm q hd sid h :
+  (st_lastproc st0 <= b)%N -> keys_below b st0 -> ids_increase b (l1 ++ (e, o) :: l2) ->
+  parse_uint0 sid = Some (e_id e) -> q_hdr q = Some h -> h <> "" ->
+  gate_session lm (replay l1 st0) q hd sid = Refused RNotYet 500 \/
+  gate_session lm (replay l1 st0) q hd sid = Proxied.
+Proof.
+  intros Hb Hk Hinc Hp Hh Hne. unfold gate_session, session_check. rewrite Hp, Hh.
+  destruct h as [|c r]; [congruence|]. cbn [is_empty].
+  rewrite (lagging_view_not_yet st0 b l1 e o l2 Hb Hk Hinc).
+  destruct lm; [destruct (st_leader (replay l1 st0))|]; auto.
+Qed.
+
+(* at the dispatcher: whichever gated session route the request matches *)
+Theorem lagging_dispatch_never_404 rt st0 b l1 e o l2 q h :
+  forallb gated rt = true ->
+  (st_lastproc st0 <= b)%N -> keys_below b st0 -> ids_increase b (l1 ++ (e, o) :: l2) ->
+  q_hdr q = Some h -> h <> "" ->
+  forall r sid,
+  find_route (fun _ => true) Pub (q_meth q) (sdrop (String.length public_prefix) (q_path q)) rt = Some (r, Some sid) ->
+  parse_uint0 sid = Some (e_id e) ->
+  has_prefix public_prefix (q_path q) = true ->
+  dispatch_public rt (replay l1 st0) q = Refused RNotYet 500 \/ dispatch_public rt (replay l1 st0) q = Proxied.
+Proof.
+  intros Hg Hb Hk Hinc Hh Hne r sid Hf Hp Hpre. unfold dispatch_public. rewrite Hpre. cbn [negb]. rewrite Hf.
+  apply find_route_spec in Hf. destruct Hf as (Hin & Hd & _ & Hpm).
+  assert (Hgr : gated r = true) by (rewrite forallb_forall in Hg; now apply Hg).
+  destruct (pat_match_id _ _ _ Hpm) as [suf Hpat]. unfold gated in Hgr. rewrite Hpat, Hd in Hgr.
+  destruct (r_gate r); try discriminate; eapply lagging_gate_status; eauto.
+Qed.
+
+(* whatever the state: "not yet seen" is never answered with 404 *)
+Theorem notyet_status rt st q c : dispatch_public rt st q = Refused RNotYet c -> c = 500%N.
+Proof.
+  unfold dispatch_public. destruct (negb _); [discriminate|].
+  destruct (find_route _ _ _ _ _) as [[r [sid|]]|]; try discriminate.
+  - destruct (r_gate r); try discriminate; unfold gate_session;
+      destruct (session_check _ _ _) as [n|[]]; try destruct (st_leader st); intros H; inversion H; reflexivity.
+  - destruct (r_gate r); discriminate.
+Qed.
+
 (* ---- the DELETE handler ------------------------------------------------------------------------- *)
 Lemma cut_line_no_line_end d c : is_line_end c = true -> contains_char c (cut_line d) = false.
 Proof.
